@@ -206,12 +206,9 @@ class _AbstractOrderedSet(AbstractSet[T], Sequence[T]):  # noqa: PLW1641
         Returns:
             True, if this is a superset of other.
         """
-        try:
-            # Fast check for obvious cases
-            if len(self) < len(other):  # type: ignore[arg-type]
-                return False
-        except TypeError:
-            pass
+        # Fast check for obvious cases; only valid if `other` has no duplicates
+        if isinstance(other, AbstractSet) and len(self) < len(other):
+            return False
         return all(item in self for item in other)
 
     def __xor__(self, other: Iterable[T]) -> Self:  # type: ignore[override]
